@@ -10,7 +10,9 @@ From Coq Require Import List Arith Lia Bool Permutation.
 Import ListNotations.
 
 (* how a goroutine of a fan-out publishes its result (classified from the source by translate/skeletons) *)
-Inductive discipline := Slots | Locked | Racy.
+(* Slots: writes only its own index of a captured slice; Locked: appends under a lock; Private: writes nothing it shares
+   with its spawner; Delegated: `go f(x)` - f is translated and classified on its own; Racy: any other shared write *)
+Inductive discipline := Slots | Locked | Private | Delegated | Racy.
 Definition discipline_ok (d : discipline) : bool := match d with Racy => false | _ => true end.
 
 Section SharedAppend.
